@@ -41,7 +41,17 @@ const c19TailAddr = "127.0.9.9:7100"
 
 var c19Names = []string{"be-a.example.net", "be-b.example.net"}
 
-func c19Addr(host, i int) string { return fmt.Sprintf("127.0.%d.%d", 11+host, i+1) }
+// c19Addr: the address universe of a host name. The second address is a textual SUFFIX of the first
+// and the third has the first as a textual PREFIX (address sets are compared as strings somewhere).
+func c19Addr(host, i int) string {
+	switch i {
+	case 1:
+		return fmt.Sprintf("27.0.%d.1", 11+host)
+	case 2:
+		return fmt.Sprintf("127.0.%d.12", 11+host)
+	}
+	return fmt.Sprintf("127.0.%d.%d", 11+host, i+1)
+}
 
 type c19Ref struct {
 	cur   []c19Ev // current scripted outcome per host
@@ -409,7 +419,7 @@ func c19Run(c *Ctx) {
 
 func init() {
 	addCheck(&Check{ID: "C19", Level: "model_checking", Collapse: true,
-		Rule:   "explicit-state BFS by replay TO A FIXPOINT over resolution outcomes {failure, success with every non-empty subset of 3 (thorough 4) addresses, in two answer orders} for one host name (state = resolver addresses x consecutive failures x rotation list and cursor x scripted outcome: finite), for udp and tcp backends and for a successful / failed initial resolution; and to depth 4 (thorough 5) for two host names with disjoint address universes feeding one rotation; the same again for backend lists that end with a static entry of the OTHER transport on another port (udp host name to a fixpoint, tcp and two host names to depth 4 / 3), and for a host name listed under both transports with the same port (depth 3-4; tracked finding); the real periodic goroutine is driven by clock steps of one period and the world runs to quiescence between steps; after every step: 2k+1 dispatches must reach exactly the resolved set, the proxy's attribution index equals it, a fabricated response from every address of the universe binds a dialog iff the address is a current backend, sockets / connections of vanished backends are closed; non-trivial = history longer than one outcome",
+		Rule:   "explicit-state BFS by replay TO A FIXPOINT over resolution outcomes {failure, success with every non-empty subset of 3 (thorough 4) addresses, in two answer orders; the universe contains an address that is a textual suffix of another and one that has another as a prefix} for one host name (state = resolver addresses x consecutive failures x rotation list and cursor x scripted outcome: finite), for udp and tcp backends and for a successful / failed initial resolution; and to depth 4 (thorough 5) for two host names with disjoint address universes feeding one rotation; the same again for backend lists that end with a static entry of the OTHER transport on another port (udp host name to a fixpoint, tcp and two host names to depth 4 / 3), and for a host name listed under both transports with the same port (depth 3-4; tracked finding); the real periodic goroutine is driven by clock steps of one period and the world runs to quiescence between steps; after every step: 2k+1 dispatches must reach exactly the resolved set, the proxy's attribution index equals it, a fabricated response from every address of the universe binds a dialog iff the address is a current backend, sockets / connections of vanished backends are closed; non-trivial = history longer than one outcome",
 		Assume: []string{"a successful lookup never returns an empty list (as net.LookupIP)", "overlapping address sets of two host names are outside the stated domain"},
 		Run:    c19Run,
 		Replay: func(c *Ctx, raw json.RawMessage) string {
